@@ -39,6 +39,44 @@ fn main() {
                 .join()
                 .unwrap_or(2)
         }
+        "samples" if args.len() >= 4 => {
+            // samples <ID> <n>: print the sample description of n non-trivial generated cases, one
+            // JSON object per line (used by tools_corpus.py to write libFuzzer seed corpora)
+            let spec = props::find(&args[2]).unwrap_or_else(|| usage());
+            let n: usize = args[3].parse().unwrap_or(10);
+            std::thread::Builder::new()
+                .stack_size(1 << 28)
+                .spawn(move || {
+                    let known = vharness::engine::Known::load(Path::new("/verif/known_findings.json")).unwrap_or_default();
+                    let mut x = seed ^ 0x9e37_79b9_7f4a_7c15;
+                    let mut printed = 0;
+                    let mut tries = 0;
+                    while printed < n && tries < n * 200 {
+                        tries += 1;
+                        let len = 16 + (tries * 37) % spec.max_len.max(17);
+                        let mut data = Vec::with_capacity(len);
+                        while data.len() < len {
+                            x ^= x >> 12;
+                            x ^= x << 25;
+                            x ^= x >> 27;
+                            data.extend_from_slice(&x.wrapping_mul(0x2545_F491_4F6C_DD1D).to_le_bytes());
+                        }
+                        let mut cx = vharness::engine::Case::new(&data, Tier::Quick, spec.id, &known);
+                        cx.want_sample = true;
+                        let _ = run::run_stream(spec, &mut cx);
+                        if cx.nontrivial {
+                            if let Some(s) = cx.sample.take() {
+                                println!("{}", s);
+                                printed += 1;
+                            }
+                        }
+                    }
+                    0
+                })
+                .expect("spawn")
+                .join()
+                .unwrap_or(2)
+        }
         "worker" if args.len() >= 9 => {
             let spec = props::find(&args[2]).unwrap_or_else(|| usage());
             let tier = Tier::parse(&args[3]).unwrap_or_else(|| usage());
